@@ -4932,6 +4932,9 @@ class ResponseFuture(object):
             self._metrics.request_timer.addValue(time.time() - self._start_time)
 
         with self._callback_lock:
+            if self._final_result is not _NOT_SET or self._final_exception is not None:
+                # already completed (e.g. by another speculative execution, or the timeout)
+                return
             self._final_result = response
             # save off current callbacks inside lock for execution outside it
             # -- prevents case where _final_result is set, then a callback is
@@ -4954,6 +4957,9 @@ class ResponseFuture(object):
             self._metrics.request_timer.addValue(time.time() - self._start_time)
 
         with self._callback_lock:
+            if self._final_result is not _NOT_SET or self._final_exception is not None:
+                # already completed (e.g. by another speculative execution, or the timeout)
+                return
             self._final_exception = response
             # save off current errbacks inside lock for execution outside it --
             # prevents case where _final_exception is set, then an errback is
